@@ -133,10 +133,10 @@ class TrajectoryParser:
             object_name: possible_objects[object_name].type
             for object_name in fluent_signature_items
         }
-        for grounded_param_type, lifted_param_type in zip(
-            fluent_signature.values(), lifted_function.signature.values()
+        for object_name, lifted_param_type in zip(
+            fluent_signature_items, lifted_function.signature.values()
         ):
-            assert grounded_param_type.is_sub_type(lifted_param_type)
+            assert possible_objects[object_name].type.is_sub_type(lifted_param_type)
 
         return PDDLFunction(name=function_name, signature=fluent_signature)
 
